@@ -256,6 +256,7 @@ def make_target(spec):
     else:
         raise ValueError("unknown spec %r" % (spec,))
     tg.variant = spec[1] if isinstance(spec[1], str) else "randfunc"
+    tg.size = tg.size * 4 + {"randfunc": 0, "rng": 1, "module": 2, "bit": 3}.get(tg.variant, 0)
     return tg
 
 
